@@ -11,6 +11,7 @@ import (
 	"encoding/json"
 	"errors"
 	"fmt"
+	"io"
 	"strings"
 	"unicode/utf8"
 
@@ -25,12 +26,18 @@ type faultScanner struct {
 	off, k    int
 	delivered bool
 	lastW     int
+	once      bool // transient fault: only the first read at offset k fails
 }
 
 func (f *faultScanner) ReadRune() (rune, int, error) {
-	if f.off >= f.k {
+	if f.off >= f.k && !(f.once && f.delivered) {
 		f.delivered = true
+		f.lastW = 0
 		return 0, 0, errRead
+	}
+	if f.off >= len(f.rs) {
+		f.lastW = 0
+		return 0, 0, io.EOF
 	}
 	r := f.rs[f.off]
 	f.off++
@@ -146,16 +153,62 @@ func c10Sentence(w *W, src string) {
 
 func c10Class(c c10Case, d string) string { return "" }
 
+// c10Invalid: sentences the grammar rejects, and transient faults.  The statement fixes the error only
+// when the reader's failure is what stops the parse; for an ill-formed program a syntax error may come
+// first.  What must hold regardless: the call returns (a blocked call aborts the worker: "all goroutines
+// are asleep"), the error is non-nil whenever a fault was delivered, and it is the read error or a
+// parser.Error — never a nil error, never a panic.
+func c10Invalid(w *W, src string, valid bool) {
+	rs := []rune(src)
+	w.Count("states", 1)
+	for k := 0; k <= len(rs); k++ {
+		for _, once := range []bool{false, true} {
+			if valid && !once {
+				continue // sticky faults on accepted sentences are judged exactly by c10Judge
+			}
+			fs := &faultScanner{rs: rs, k: k, once: once}
+			w.Announce(fmt.Sprintf("%q fault at %d once=%v", src, k, once))
+			var err error
+			var pan interface{}
+			func() {
+				defer func() { pan = recover() }()
+				_, _, err = parser.ParseCommands(nil, "t", fs)
+			}()
+			quiesce()
+			w.Count("evaluations", 1)
+			w.Count("transitions", 1)
+			w.Count("traces_validated_against_impl", 1)
+			w.Count("fault_runs_invalid_or_transient", 1)
+			c := map[string]interface{}{"source": src, "fault_at": k, "transient": once}
+			switch {
+			case pan != nil:
+				w.Violation("", c, fmt.Sprintf("ParseCommands(%q) with the reader failing at rune %d (transient=%v) panicked: %v", src, k, once, pan))
+			case fs.delivered && err == nil:
+				w.Violation("", c, fmt.Sprintf("ParseCommands(%q): the reader failed at rune %d (transient=%v) and the call returns a nil error", src, k, once))
+			case err != nil && !errors.Is(err, errRead):
+				if _, ok := err.(parser.Error); !ok {
+					w.Violation("", c, fmt.Sprintf("ParseCommands(%q) with the reader failing at rune %d: error %T %v is neither the read error nor a parser.Error", src, k, err, err))
+				} else if valid && fs.delivered {
+					w.Violation("", c, fmt.Sprintf("ParseCommands(%q), a well-formed program, with the reader failing once at rune %d: the read error is replaced by %q", src, k, err.Error()))
+				}
+			}
+		}
+	}
+}
+
 func c10Run(w *W) {
 	n := 3
 	if w.thorough() {
 		n = 4
 	}
-	genSyms(append(append([]string{}, sigmaCore...), ";;", "<<-E", "`c`", "$((1))", "é"), n, func(ss []sym) {
+	genSyms(append(append([]string{}, sigmaCore...), ";;", "<<-E", "`c`", "$((1))", "é", "$("), n, func(ss []sym) {
 		if !w.Mine() || w.TimeUp() || lexicallyEntangled(ss) {
 			return
 		}
-		c10Sentence(w, render(ss).src)
+		src := render(ss).src
+		c10Sentence(w, src)
+		o := runParse(src)
+		c10Invalid(w, src, o.err == nil && o.pan == nil)
 	})
 	seen := map[string]bool{}
 	derivations(w.thorough(), func(name string, texts []string) {
@@ -185,7 +238,7 @@ func init() {
 	register(&check{
 		id:    "C10",
 		level: "fault_enumeration",
-		rule: "every accepted sentence among all strings ≤ 3 (quick) / 4 (thorough) over Σcore+5 and the derivation sets D0, D1, word menu (thorough: D2) in canonical and tight layout × every rune index k ∈ [0, len] at which the reader starts failing × {io.RuneScanner, io.Reader}: the complete set of single-fault positions; " +
+		rule: "every accepted sentence among all strings ≤ 3 (quick) / 4 (thorough) over Σcore+5 and the derivation sets D0, D1, word menu (thorough: D2) in canonical and tight layout × every rune index k ∈ [0, len] at which the reader starts failing × {io.RuneScanner, io.Reader}: the complete set of single-fault positions; additionally every sentence of the string space that the parser REJECTS and every accepted one under a transient (one-shot) fault at every k: the call must return, with a non-nil error that is the read error or a parser.Error; " +
 			"non-trivial = every base sentence (each is explored at all of its positions)",
 		assume: []string{"a fault is 'delivered' when the RuneScanner wrapper returned the sentinel; for io.Reader (wrapped in bufio by go.sh) delivery to the parser is not observable, so the rule is: nil error only with the fault-free result and only if k is not inside the consumed text, otherwise errors.Is(err, sentinel)"},
 		run:    c10Run,
